@@ -138,6 +138,25 @@ func runC02(c *Ctx) {
 			c.Violate("C02:changed-after-end", "RunCycle on the finished battle changed the state: "+d, bc.describe())
 			return
 		}
+		// ... and neither must Run() on the finished battle
+		rec.pops = rec.pops[:0]
+		var survAgain []bool
+		if p, msg := try(func() { survAgain = s.Run() }); p {
+			c.Violate("C02:panic-after-end:"+panicSite(msg), msg, bc.describe())
+			return
+		}
+		if len(rec.pops) > 0 {
+			c.Violate("C02:run-after-end-executes", fmt.Sprintf("the battle was over after %d cycles but a Run() call on it executed %v", cycles, rec.pops), bc.describe())
+			return
+		}
+		if ok, d := compareBattle(s, ws, ref, 0); !ok {
+			c.Violate("C02:changed-after-end", "Run() on the finished battle changed the state: "+d, bc.describe())
+			return
+		}
+		if survAgain != nil && fmt.Sprint(survAgain) != fmt.Sprint(ref.AliveVec()) {
+			c.Violate("C02:run-survivors", fmt.Sprintf("Run() on the finished battle returned %v, survivors are %v", survAgain, ref.AliveVec()), bc.describe())
+			return
+		}
 		if ref.Cycle >= ref.C && ref.Living > 1 {
 			events["cycle-limit-multi-alive"] = true
 			c.Inc("cycle_limit_with_several_alive")
@@ -167,6 +186,15 @@ func runC02(c *Ctx) {
 		}
 		if ok, d := compareBattle(s2, ws2, ref, 0); !ok {
 			c.Violate("C02:run-vs-step:"+strings.SplitN(d, ":", 2)[0], "state after Run() differs from the cycle-by-cycle state: "+d, bc.describe())
+			return
+		}
+		// a second Run() on the same simulator finds the battle finished
+		if p, msg := try(func() { surv = s2.Run() }); p {
+			c.Violate("C02:run-panic:"+panicSite(msg), msg, bc.describe())
+			return
+		}
+		if ok, d := compareBattle(s2, ws2, ref, 0); !ok || (surv != nil && fmt.Sprint(surv) != fmt.Sprint(want)) {
+			c.Violate("C02:second-run-changes", fmt.Sprintf("a second Run() changed the finished battle (returned %v): %s", surv, d), bc.describe())
 			return
 		}
 		c.Inc("run_vs_step_compared")
